@@ -1,7 +1,9 @@
 package main
 
 import (
+	"fmt"
 	"go/ast"
+	"go/types"
 	"strings"
 
 	"promverif/eng"
@@ -129,5 +131,61 @@ func runC41(c *eng.Ctx) {
 		f.Dom("R3", dup, s.appends)
 		f.GivenBranch("!ls.Has(labels.MetricName) || !ls.IsValid(model.UTF8Validation)", true).NoPathAvoid("R3", valid, s.appends, "iteration of `range req.Timeseries`", f.LoopHeads("req.Timeseries"))
 		f.GivenBranch("hasDuplicate", true).NoPathAvoid("R3", dup, s.appends, "iteration of `range req.Timeseries`", f.LoopHeads("req.Timeseries"))
+	}
+	// ---- R4 scratch-builder discipline: a function that assembles a label set in a caller-supplied ScratchBuilder
+	// (it calls Add and also Labels or Reset on that parameter) resets the builder before the first Add on every path ----
+	{
+		type site struct {
+			fn  string
+			par string
+		}
+		seen := map[site]bool{}
+		for _, o := range p.FindAll(eng.Node("b.Add(…) on a *labels.ScratchBuilder parameter", func(g *eng.Graph, n ast.Node) bool {
+			call, ok := n.(*ast.CallExpr)
+			if !ok {
+				return false
+			}
+			se, ok := call.Fun.(*ast.SelectorExpr)
+			if !ok || se.Sel.Name != "Add" {
+				return false
+			}
+			id, ok := se.X.(*ast.Ident)
+			if !ok {
+				return false
+			}
+			v, ok := g.Info.Uses[id].(*types.Var)
+			if !ok || g.Decl == nil || g.Decl.Type.Params == nil {
+				return false
+			}
+			isParam := false
+			for _, fl := range g.Decl.Type.Params.List {
+				for _, nm := range fl.Names {
+					if g.Info.Defs[nm] == v {
+						isParam = true
+					}
+				}
+			}
+			if !isParam {
+				return false
+			}
+			return strings.HasSuffix(v.Type().String(), "model/labels.ScratchBuilder")
+		})) {
+			id := o.Node.(*ast.CallExpr).Fun.(*ast.SelectorExpr).X.(*ast.Ident)
+			seen[site{o.In, id.Name}] = true
+		}
+		n := 0
+		for s := range seen {
+			f := c.FnByName(s.fn)
+			if f == nil {
+				continue
+			}
+			if len(f.Find(eng.OnVar(s.par, "Labels"))) == 0 && len(f.Find(eng.OnVar(s.par, "Reset"))) == 0 {
+				continue // an adder (contributes to a set its caller assembles), not an assembler
+			}
+			n++
+			f.Dom("R4", eng.OnVar(s.par, "Reset"), eng.OnVar(s.par, "Add"))
+			f.NoPath("R4", eng.OnVar(s.par, "Add"), eng.OnVar(s.par, "Reset")) // and not again between the adds and Labels()
+		}
+		c.Check("R4", "module", "label assemblers over a caller-supplied ScratchBuilder found (≥ 3: prompb v1, write v2, index decoder)", n >= 3, "", fmt.Sprint(n))
 	}
 }
